@@ -450,13 +450,23 @@ fn diff<K: Eq + Hash>(from: &FxIndexSet<K>, to: &FxIndexSet<K>) -> Diff {
     let mut moved = vec![];
     let mut added = vec![];
     let max_len = std::cmp::max(from.len(), to.len());
+    let min_len = std::cmp::min(from.len(), to.len());
+    // index in `to` of the last item so far that keeps its place in the DOM:
+    // an item at the same index in both lists, or a moved item whose DOM move
+    // is skipped
+    let mut last_kept: Option<usize> = None;
+    // smallest index above the current one at which both lists hold the same
+    // item
+    let mut next_unmoved = 0;
 
     for index in 0..max_len {
         let from_item = from.get_index(index);
         let to_item = to.get_index(index);
 
         // if they're the same, do nothing
-        if from_item != to_item {
+        if from_item == to_item {
+            last_kept = Some(index);
+        } else {
             // if it's only in old, not new, remove it
             if from_item.is_some() && !to.contains(from_item.unwrap()) {
                 let op = DiffOpRemove { at: index };
@@ -475,11 +485,34 @@ fn diff<K: Eq + Hash>(from: &FxIndexSet<K>, to: &FxIndexSet<K>) -> Diff {
             // 2) be moved (but not need to move in the DOM)
             //    * this would happen if, for example, 2 items
             //      have been added before it, and it has moved by 2
+            //    * but only if it does not overtake another item that keeps
+            //      its place: the items that are not moved in the DOM must
+            //      stay in the same relative order
             if let Some(from_item) = from_item {
                 if let Some(to_item) = to.get_full(from_item) {
                     let moves_forward_by = (to_item.0 as i32) - (index as i32);
-                    let move_in_dom = moves_forward_by
+                    let mut move_in_dom = moves_forward_by
                         != (added.len() as i32) - (removed.len() as i32);
+                    if !move_in_dom {
+                        if next_unmoved <= index {
+                            next_unmoved = index + 1;
+                        }
+                        while next_unmoved < min_len
+                            && from.get_index(next_unmoved)
+                                != to.get_index(next_unmoved)
+                        {
+                            next_unmoved += 1;
+                        }
+                        let overtakes = last_kept
+                            .is_some_and(|last| to_item.0 < last)
+                            || (next_unmoved < min_len
+                                && next_unmoved < to_item.0);
+                        if overtakes {
+                            move_in_dom = true;
+                        } else {
+                            last_kept = Some(to_item.0);
+                        }
+                    }
 
                     let op = DiffOpMove {
                         from: index,
@@ -513,7 +546,10 @@ fn group_adjacent_moves(moved: Vec<DiffOpMove>) -> Vec<DiffOpMove> {
     for m in moved {
         match prev {
             Some(mut p) => {
-                if (m.from == p.from + p.len) && (m.to == p.to + p.len) {
+                if (m.from == p.from + p.len)
+                    && (m.to == p.to + p.len)
+                    && (m.move_in_dom == p.move_in_dom)
+                {
                     p.len += 1;
                     prev = Some(p);
                 } else {
